@@ -83,12 +83,14 @@ pub struct Ctx {
     pub samples: Vec<Value>,
     pub sample_budget: usize,
     pub counting: bool,
+    /// occurrences of listed known findings met while exploring (reported as KNOWN-FINDING lines, never as violations)
+    pub known: BTreeSet<String>,
     seen: u64,
 }
 
 impl Ctx {
     pub fn new() -> Ctx {
-        Ctx { evaluations: 0, nontrivial: BTreeSet::new(), classes: BTreeMap::new(), samples: Vec::new(), sample_budget: 4, counting: true, seen: 0 }
+        Ctx { evaluations: 0, nontrivial: BTreeSet::new(), classes: BTreeMap::new(), samples: Vec::new(), sample_budget: 4, counting: true, known: BTreeSet::new(), seen: 0 }
     }
     pub fn eval(&mut self) {
         if self.counting {
@@ -241,6 +243,7 @@ where
         nontrivial: ctx.nontrivial,
         classes: ctx.classes,
         samples: ctx.samples,
+        known_findings: ctx.known.iter().cloned().collect(),
         ..PartOutcome::default()
     };
     match result {
@@ -370,7 +373,7 @@ pub fn run_shard(prop: &Property, tier: Tier, seed: u64, shard: u32, nshards: u3
         if !active {
             continue;
         }
-        let cfg = PartCfg { property: prop.id, part: part.name, tier, cases, seed, shard, nshards, journal: journal.clone(), expensive: part.quick > 0 && part.quick <= 2_000 };
+        let cfg = PartCfg { property: prop.id, part: part.name, tier, cases, seed, shard, nshards, journal: journal.clone(), expensive: part.quick > 0 && part.quick <= 5_000 };
         let mut out = (part.run)(&cfg);
         out.supplementary = part.supplementary;
         let failed = out.violation.is_some();
